@@ -410,7 +410,9 @@ func (w *World) assign(entity Entity, relation ID, hasRelation bool, target Enti
 func (w *World) exchange(entity Entity, add []ID, rem []ID, relation ID, hasRelation bool, target Entity) {
 	if w.listener != nil {
 		arch, oldMask, oldTarget, oldRel := w.exchangeNoNotify(entity, add, rem, relation, hasRelation, target)
-		w.notifyExchange(arch, oldMask, entity, add, rem, oldTarget, oldRel)
+		if arch != nil {
+			w.notifyExchange(arch, oldMask, entity, add, rem, oldTarget, oldRel)
+		}
 		return
 	}
 	w.exchangeNoNotify(entity, add, rem, relation, hasRelation, target)
